@@ -37,6 +37,16 @@ pub open spec fn may_relay(tcp: TcpConnectionContext, url: http::Uri, kk: KeyKee
     }
 }
 
+// C03 (stated on its own, independent of any policy): what is relayed on a connection never belongs to a non-elevated caller
+// of WireServer / HostGAPlugin, nor to a connection whose recorded destination is the proxy's own listener
+pub open spec fn root_only_respected(tcp: TcpConnectionContext) -> bool {
+    tcp.destination_ip is Some && tcp.claims is Some && {
+        let ep = endpoint_of(ip_string(tcp.destination_ip->0), tcp.destination_port);
+        &&& !((ep is WireServer || ep is GAPlugin) && !tcp.claims->0.runAsElevated)
+        &&& !(ep is ProxyAgent)
+    }
+}
+
 // ---- C11: the failed-authorization summary, as a ghost trace of the events handed to the status actor ----
 pub struct FailEv {
     pub user: Seq<char>, pub cmd: Seq<char>, pub exe: std::path::PathBuf, pub dest_ip: Seq<char>, pub dest_port: u16,
@@ -105,6 +115,18 @@ pub open spec fn auth_signed(request: http::Request<http_body_util::Full<hyper::
     &&& one_value(h, AUTH_H())
     &&& exists|pre: http::HeaderMap| hm_view(pre).remove(AUTH_H()) == h.remove(AUTH_H())
             && #[trigger] hv_view(h[AUTH_H()][0]) == sig_value(guid, key, req_method(request), req_uri(request), pre, full_view(req_body(request)))
+}
+// C10: key_record(k) = k is one key record as the key-keeper actor held it at one instant (answer of ONE GetKey message);
+// latched(guid, key) = guid and key are the two fields of one such record
+pub uninterp spec fn key_record(k: crate::key_keeper::key::Key) -> bool;
+pub open spec fn latched(guid: Seq<char>, key: Seq<char>) -> bool {
+    exists|k: crate::key_keeper::key::Key| key_record(k) && k.guid@ == guid && #[trigger] k.key@ == key
+}
+// what leaves for the host either carries the client's own authorization header state, or a signature whose key id names
+// the key that produced the MAC
+pub open spec fn key_id_names_signing_key(request: http::Request<http_body_util::Full<hyper::body::Bytes>>, orig: FwdSpec) -> bool {
+    auth_unsigned(hm_view(req_headers(request)), orig.headers0)
+    || exists|guid: Seq<char>, key: Seq<char>| latched(guid, key) && #[trigger] auth_signed(request, guid, key)
 }
 // the request handed to the upstream write primitive, relative to what the client sent
 pub open spec fn fwd_ok(request: http::Request<http_body_util::Full<hyper::body::Bytes>>, orig: FwdSpec) -> bool {
